@@ -27,7 +27,7 @@ OPEN = {
 	'C06': 'Relies on C11 (`abspath_clean`, `abspath_fixed`).',
 	'C07': 'The HTTP/1.0 + chunked combination is finding F6.',
 	'C08': 'The round-trip clause is a theorem (`compose_parse_roundtrip`, `Proofs/HeadersRoundtrip.lean`) for collections without list-valued fields; those (Set-Cookie, WWW-Authenticate, Proxy-Authenticate) are composed field-specifically and judged by the oracle.',
-	'C09': 'Open: whole elements and lists (several parameters, quote parity across parameters, RFC 2231 continuations) as theorems; they are tied by correspondence for the four element classes.',
+	'C09': 'The whole element is a theorem (`element_roundtrip`, `Proofs/ElementRoundtrip.lean`): a value and any number of parameters with pairwise different canonical keys and ASCII values free of double quotes parse back in order; the proof carries quote parity across parameters, so no `;` or `,` inside a quoted value cuts and no parameter merges with its neighbour. Open as theorems: element lists (the `,` level), RFC 2231 continuations and RFC 5987 extended values - tied by correspondence for the four element classes.',
 	'C10': 'Proved: the three inner cuts (userinfo, host:port, path) and the five outer cuts (`uri_cuts`, `compose_assemble`): no component leaks into its neighbour. Open as one theorem: the final record (class by scheme, port defaults) - correspondence/oracle. IPv6 literals and IDN hosts go through socket/idna: oracle only.',
 	'C11': 'The RFC clause is now a theorem (`abspath_eq_rfc`, `normalize_path_rfc`; `Proofs/Rfc.lean`, `Proofs/RfcAbspath.lean`): the buffer-rewriting loop of RFC 3986 §5.2.4 is shown to be a stack machine on segments, and `abspath` (whose stack also holds, and may pop, the root segment) is related to it. Trusted there: the transcription of the RFC text.',
 	'C12': 'Degenerate references ("?", "#", "//", "s:") are outside the quantifier.',
@@ -119,7 +119,11 @@ of writing all of them are reported as VIOLATION by the quick tier. Where a chec
 oracles, were the gap every time): C01 boundary mutations (stray CRLF where a start line is expected), C02 narrower F18 guard (pipelined octets
 after a trailer block), C03 work-bound oracle in a child interpreter (catastrophic regex backtracking), C05/C04 text pieces in list bodies,
 C07 fragmentations inside the trailer section, C10 relative references, C14 coded messages from an independent sender (multi-member gzip),
-C12 resolved-twice oracle bug fixed, and the token dictionaries of C03.
+C12 resolved-twice oracle bug fixed, and the token dictionaries of C03. A second round (seeds `-3`/`-4`, 79 stored in all) added: C02 empty
+trailer values, C06 `*`-prefixed targets, password-only userinfo and CONNECT target variants, C09 narrower F33/F20 classes (a known-finding
+class that was too wide hid a seeded change; the classes now name exactly the values that fail on the pristine tree), C10 hosts with a leading
+digit, C15 comparisons against every operand form (datetime, struct_time, number, text), C05 1xx statuses, C20 body supply modes (written to,
+partly read).
 Three stored patches were rebased after a `fix:` commit touched the same line (C17-1, C03-1; noted in their notes.txt); one agent proposal was
 rejected because a repair made it harmless (`seeded/rejected/`).
 """
